@@ -22,7 +22,7 @@ theorem KItem.refs_step (W : String → Option Int) (it : KItem) (its : List KIt
     refine ⟨seen, known, h, ?_⟩
     intro n hn
     exact Comp.KOk.dec_keys hok d hcb hfit hpre n (hseen n hn)
-  | key o v b =>
+  | key kd o v i b =>
     refine ⟨o.name :: seen, _, h.2, ?_⟩
     intro n hn
     show lookup n (insertKV o.name v d.lengthKeys) = W n
@@ -41,7 +41,7 @@ theorem KItem.ref_known (W : String → Option Int) (it : KItem) (its : List KIt
     (k : String) (b : Int) (hr : it.ref = some (k, b)) : lookup k d.lengthKeys = some b := by
   cases it with
   | comp g nm => cases hr
-  | key o v b' => cases hr
+  | key kd o v i b' => cases hr
   | user u =>
     simp only [KItem.ref, Option.some.injEq, Prod.mk.injEq] at hr
     rw [← hr.1, ← hr.2, hseen _ h.1, h.2.1]
@@ -109,9 +109,9 @@ theorem KItems.decPre_intro (W : String → Option Int) : (its : List KItem) →
           have := hlast.1
           simp only [KItem.toComp] at this
           rw [this] at he; cases he
-      | key o v b =>
-        show (decStep o d).1 = .int v
-        have := (hcells (o, v, o.pos s.origin s.cursorByte) (by simp [KItems.cells, KItem.cell])).2
+      | key kd o v i b =>
+        show (decStep o d).1 = .int i
+        have := (hcells (o, i, o.pos s.origin s.cursorByte) (by simp [KItems.cells, KItem.cell])).2
         simp only [decStep, horig, hcur]
         exact this
       | user u => exact href _ _ rfl
@@ -132,15 +132,33 @@ theorem KItems.decPre_intro (W : String → Option Int) : (its : List KItem) →
         exact heop' (by simp only [Comps.anyEop, List.any_cons] at hany ⊢; simp [hany])
 
 /-- every key of the list has a cell -/
-theorem KItems.cells_of_key : (its : List KItem) → (s : EncState) → ∀ o v b, KItem.key o v b ∈ its →
-    ∃ pos, (o, v, pos) ∈ KItems.cells its s
-  | [], _, _, _, _, h => by cases h
-  | it :: its, s, o, v, b, h => by
+theorem KItems.cells_of_key : (its : List KItem) → (s : EncState) → ∀ kd o v i b, KItem.key kd o v i b ∈ its →
+    ∃ pos, (o, i, pos) ∈ KItems.cells its s
+  | [], _, _, _, _, _, _, h => by cases h
+  | it :: its, s, kd, o, v, i, b, h => by
     cases h with
     | head => exact ⟨o.pos s.origin s.cursorByte, by simp [KItems.cells, KItem.cell]⟩
     | tail _ hm =>
-      obtain ⟨pos, hp⟩ := KItems.cells_of_key its (it.toComp.pair.enc s) o v b hm
+      obtain ⟨pos, hp⟩ := KItems.cells_of_key its (it.toComp.pair.enc s) kd o v i b hm
       exact ⟨pos, by simp only [KItems.cells, List.mem_append]; exact Or.inr hp⟩
+
+/-- after the first pass every key of the list has its value and its recorded position -/
+theorem KItems.keys_ready {W : String → Option Int} (its : List KItem) (hrefs : KItems.refsOk W [] [] its)
+    (hcov : KItems.covered its) (s s1 : EncState) (hp1 : Pass1 W its s s1) : ∀ kd o v i b, KItem.key kd o v i b ∈ its →
+      lookup o.name s1.lengthKeys = some v ∧ (lookup o.name s1.keyPos).isSome = true := by
+  intro kd o v i b hm
+  constructor
+  · cases b with
+    | true => exact hp1.supplied kd o v i hm
+    | false =>
+      obtain ⟨it, hit, b, hb⟩ := hcov kd o v i hm
+      have h1 := hp1.used it hit _ _ hb
+      have h2 := KItems.refsOk_key W [] [] its hrefs kd o v i false hm
+      have h3 := KItems.refsOk_ref W [] [] its hrefs it hit _ _ hb
+      rw [h2] at h3
+      rw [h1, Option.some.inj h3]
+  · obtain ⟨pos, hpos⟩ := KItems.cells_of_key its s kd o v i b hm
+    rw [hp1.pos _ hpos]; rfl
 
 theorem KItems.need_ge (its : List KItem) : its.length + 1 ≤ Comps.need (KItems.comps its) := by
   have := Comps.need_ge (KItems.comps its)
@@ -163,24 +181,10 @@ theorem encodeMessage_kitems (W : String → Option Int) (its : List KItem) (hne
     (fun g hg => KItems.lookupV_values its hok hn g hg) f hf' true (fun _ => rfl) s0 (fun n x h => by cases h)
     (fun n h => by cases h)
   -- every key has its value and its position
-  have hkeys : ∀ o v b, KItem.key o v b ∈ its →
+  have hkeys : ∀ kd o v i b, KItem.key kd o v i b ∈ its →
       lookup o.name ({ s1 with isEndOfPdu := false } : EncState).lengthKeys = some v ∧
-      (lookup o.name ({ s1 with isEndOfPdu := false } : EncState).keyPos).isSome = true := by
-    intro o v b hm
-    constructor
-    · cases b with
-      | true => exact hp1.supplied o v hm
-      | false =>
-        obtain ⟨it, hit, b, hb⟩ := hcov o v hm
-        have h1 := hp1.used it hit _ _ hb
-        have h2 := KItems.refsOk_key W [] [] its hrefs o v false hm
-        have h3 := KItems.refsOk_ref W [] [] its hrefs it hit _ _ hb
-        rw [h2] at h3
-        show lookup o.name s1.lengthKeys = some v
-        rw [h1, Option.some.inj h3]
-    · obtain ⟨pos, hpos⟩ := KItems.cells_of_key its s0 o v b hm
-      show (lookup o.name s1.keyPos).isSome = true
-      rw [hp1.pos _ hpos]; rfl
+      (lookup o.name ({ s1 with isEndOfPdu := false } : EncState).keyPos).isSome = true :=
+    KItems.keys_ready its hrefs hcov s0 s1 hp1
   have hrun2 := KItems.encode2 its hok f hf' { s1 with isEndOfPdu := false } hkeys
   have hcs : KItems.cells2 ({ s1 with isEndOfPdu := false } : EncState).keyPos its = KItems.cells its s0 :=
     KItems.cells2_eq s1.keyPos its s0 hp1.pos
